@@ -103,9 +103,10 @@ fn red_v() -> BoxedStrategy<Red> {
 }
 
 const AREA_VALID: [&str; 8] = ["1", "100.5", "0.0011", "250", "0.5", "37.25", "1e3", "12345.678"];
-const AREA_INVALID: [&str; 8] = ["0", "-3", "0.001", "0.0005", "abc", "", "1,5", "12m2"];
+// (values whose rejection the statement does not fix - a decimal comma, another letter case - are not called invalid)
+const AREA_INVALID: [&str; 8] = ["0", "-3", "0.001", "0.0005", "abc", "", "uno", "12m2"];
 const K_VALID: [&str; 9] = ["0", "1", "0.5", "0.0", "1.0", "0.25", "0.7", "1e-1", ".5"];
-const K_INVALID: [&str; 7] = ["-0.1", "1.5", "2", "-1", "abc", "", "0,5"];
+const K_INVALID: [&str; 7] = ["-0.1", "1.5", "2", "-1", "abc", "", "medio"];
 
 fn red_opt_args(flag: &str, r: &Red, args: &mut Vec<String>) {
     match r {
@@ -426,8 +427,8 @@ impl Prop for C19 {
                 num_v(AREA_VALID.to_vec(), AREA_INVALID.to_vec()),
                 num_v(K_VALID.to_vec(), K_INVALID.to_vec()),
                 num_v(K_VALID.to_vec(), K_INVALID.to_vec()),
-                loc_v(vec!["MADRID", "peninsula"]),
-                loc_v(vec!["MADRID", "peninsula", ""]),
+                loc_v(vec!["MADRID", "ESPAÑA"]),
+                loc_v(vec!["MADRID", "ESPAÑA", ""]),
             ),
             (red_v(), red_v(), red_v(), red_v()),
             (proptest::option::weighted(0.3, 0usize..2), 0usize..3, any::<bool>(), prop::bool::weighted(0.2), prop::bool::weighted(0.15), prop_oneof![3 => Just(0u8), 2 => 0u8..16]),
